@@ -27,6 +27,13 @@ def Shape.nd (s : Shape) : Nat := s.nx.length
 /-- the PMF grid has one more point in each non-periodic dimension (`add_extra_bin`) -/
 def Shape.pmfNx (s : Shape) : List Int := List.zipWith (fun n p => if p then n else n + 1) s.nx s.per
 
+/-- lower boundary of the surface's grid (`integrate_potential` constructors: shifted by half a bin in **every** dimension,
+    periodic or not — values sit on the edges of the gradient bins, not at their centres) -/
+def pmfLower {α : Type} [Sc α] (lo w : α) : α := lo - 0.5 * w
+
+/-- `bin_to_value_scalar(j)` on the surface's grid: the coordinate at which the `j`-th value of the surface is reported -/
+def pmfCoord {α : Type} [Sc α] (lo w : α) (j : Int) : α := pmfLower lo w + w * ((j : α) + 0.5)
+
 /-- `wrap_detect_edge` on the gradient grid: the wrapped index, or `none` when a non-periodic coordinate is outside -/
 def wrapEdge : List Int → List Bool → Idx → Option Idx
   | n :: ns, p :: ps, i :: is =>
